@@ -12,19 +12,37 @@ type Shrinker struct {
 	MaxExec  int
 	Execs    int
 	MkCheck  func() Checker
+	// Repeats > 1: the violation may depend on Go map iteration order (C10), which no
+	// seed controls; a candidate counts as failing if any of Repeats executions fails.
+	Repeats int
+	// AnyRule: accept any rule of the same property (C10: the same map-order defect
+	// shows as R1, R2 or R4 depending on where the orders happen to differ).
+	AnyRule bool
 }
 
 func (s *Shrinker) fails(steps []*Step) bool {
-	if s.Execs >= s.MaxExec || time.Now().After(s.Deadline) {
-		return false
+	n := s.Repeats
+	if n < 1 {
+		n = 1
 	}
-	s.Execs++
-	tr := s.Base.CloneWithSteps(steps)
-	w, err := ReplayTrace(tr, s.MkCheck())
-	if err != nil || w == nil || len(w.Harness) > 0 || w.Viol == nil {
-		return false
+	for i := 0; i < n; i++ {
+		if s.Execs >= s.MaxExec || time.Now().After(s.Deadline) {
+			return false
+		}
+		s.Execs++
+		tr := s.Base.CloneWithSteps(steps)
+		w, err := ReplayTrace(tr, s.MkCheck())
+		if err != nil || w == nil || len(w.Harness) > 0 || w.Viol == nil {
+			continue
+		}
+		if w.Viol.Property != s.Want.Property {
+			continue
+		}
+		if s.AnyRule || (w.Viol.Rule == s.Want.Rule && w.Viol.Signature == s.Want.Signature) {
+			return true
+		}
 	}
-	return w.Viol.Property == s.Want.Property && w.Viol.Rule == s.Want.Rule && w.Viol.Signature == s.Want.Signature
+	return false
 }
 
 type blockSpan struct{ from, to int } // [from,to)
